@@ -270,7 +270,14 @@ theorem optimize_F2 (extras : Bool) (rules : List Rule) (orules : List ORule)
       simp only [Option.bind_eq_some_iff, Option.map_eq_some_iff] at ho
       obtain ⟨r5, h5, e, he, rfl⟩ := ho
       simp only [restoreOnErr]
-      rw [ofOptimized_omapBottomUp _ _ (ofOptimized_wrapBranching extras opt), ofOptimized_toOptimized _ _ _ he]
+      have hwrap : ∀ (c : Prop) [Decidable c] (x : OExpr),
+          ofOptimized (if c then OExpr.restoreOnErr x else x) = ofOptimized x := by
+        intro c _ x
+        split
+        · rfl
+        · rfl
+      rw [hwrap, ofOptimized_omapBottomUp _ _ (ofOptimized_wrapBranching extras opt),
+        ofOptimized_toOptimized _ _ _ he]
       exact h5
     · intro r o ho
       exact ho
